@@ -4,6 +4,7 @@ import (
 	"github.com/spf13/cast"
 
 	sdkerrors "cosmossdk.io/errors"
+	sdkmath "cosmossdk.io/math"
 	sdk "github.com/cosmos/cosmos-sdk/types"
 	sdkerrtypes "github.com/cosmos/cosmos-sdk/types/errors"
 
@@ -74,6 +75,13 @@ func (k Keeper) Wager(ctx sdk.Context, bet *types.Bet, betOdds map[string]*types
 
 	bet.CreatedAt = ctx.BlockTime().Unix()
 	bet.BetFulfillment = betFulfillment
+
+	// the recorded bet amount is the amount that is actually taken from the bettor,
+	// which is the sum of the fulfilled amounts.
+	bet.Amount = sdkmath.ZeroInt()
+	for _, f := range betFulfillment {
+		bet.Amount = bet.Amount.Add(f.BetAmount)
+	}
 
 	// store bet in the module state
 	k.SetBet(ctx, *bet, betID)
